@@ -30,7 +30,7 @@ ASSUMPTIONS = [
     "agree with the reference engine at all L sampled n; parametric programs are skipped (relations at one parameter value need not be generic)",
 ]
 TIMEOUT = {"quick": 45, "thorough": 120}
-DEADLINE = {"quick": 75, "thorough": 1100}
+DEADLINE = {"quick": 75, "thorough": 1000}
 MIN_DECIDING = {"quick": 60, "thorough": 600}
 NDIRECT = {"quick": 300, "thorough": 2600}
 NCLI = {"quick": 30, "thorough": 400}
